@@ -39,14 +39,18 @@ def rule_letters(fx, rep):
     wr = fx.one("UciMove::notation")
     kinds = {v["discr"]: v["name"] for v in fx.adt("piece::PromotionPieceKind")["variants"]}
     wt = {}
-    for bb, j, s in wr.stmts():
-        rv = s.get("rv")
-        if s["k"] == "assign" and rv["k"] == "use" and rv["op"].get("k") == "const" and const_str(rv["op"]) not in (None, ""):
-            lit = const_str(rv["op"])
-            for (e, pol, w) in guard_conditions(wr, bb, expand_named=True):
-                d = deep_strip(e)
-                if isinstance(d, tuple) and d[0] == "discr" and isinstance(pol, int) and find_kind_discr(d):
-                    wt[kinds.get(pol)] = lit
+    # the letter table may sit in the printer itself or in a string-valued helper it calls
+    wbodies = [wr] + [fx.body(callee_name(t)) for bb, t in wr.calls()
+                      if callee_name(t) and fx.body(callee_name(t)) is not None and norm(callee_name(t)).startswith("engine::uci::") and "str" in fx.body(callee_name(t)).local_ty(0)]
+    for wb in wbodies:
+        for bb, j, s in wb.stmts():
+            rv = s.get("rv")
+            if s["k"] == "assign" and rv["k"] == "use" and rv["op"].get("k") == "const" and const_str(rv["op"]) not in (None, ""):
+                lit = const_str(rv["op"])
+                for (e, pol, w) in guard_conditions(wb, bb, expand_named=True):
+                    d = deep_strip(e)
+                    if isinstance(d, tuple) and d[0] == "discr" and isinstance(pol, int) and find_kind_discr(d):
+                        wt[kinds.get(pol)] = lit
     rep.sample({"rule": "C17-LETTERS", "reader_promotion": rt, "writer_promotion": wt})
     n += 1
     good = set(rt) == set("nbrq") and len(set(rt.values())) == 4 and all(wt.get(k) == c for c, k in rt.items())
